@@ -537,6 +537,22 @@ class ConfigCorr(Corr):
                             apply_mutation(c, a)
                             apply_mutation(c, bb)
                             out.append(self._mk(c, frame, tag=f"{a[0]} {a[1]} + {bb[0]} {bb[1]} {task}/{variant}"))
+            # all four range keys present, some of them falsy-but-not-None (0.0, 0, per-label zeros):
+            # "is None" vs truthiness confusions only show on such values
+            if task in TASKS_3D + ("sensing",):
+                falsy = [0.0, 0, [0.0, 0.0, 0.0, 0.0]]
+                combos = []
+                for i, k in enumerate(rk):
+                    for fv in falsy:
+                        combos.append({kk: (fv if kk == k else 100.0) for kk in rk})
+                combos.append({kk: 100.0 for kk in rk})
+                for i in range(len(rk)):
+                    for j in range(i + 1, len(rk)):
+                        combos.append({kk: (0.0 if kk in (rk[i], rk[j]) else 50.0) for kk in rk})
+                for cmb in (combos if thorough or variant == "xy" else combos[:6]):
+                    c = copy.deepcopy(b)
+                    c.update(cmb)
+                    out.append(self._mk(c, frame, tag=f"all four range keys, falsy values {task}/{variant}"))
             pairs = [(a, bb) for i, a in enumerate(muts) for bb in muts[i + 1:] if a[1] != bb[1]]
             for a, bb in (pairs if len(pairs) <= n_pairs else rng.sample(pairs, n_pairs)):
                 c = copy.deepcopy(b)
